@@ -330,6 +330,8 @@ fn outcome_kind(o: &Outcome) -> &'static str {
 
 fn run(ctx: &Ctx, report: &mut Report) {
     crate::util::silence_panics();
+    // through the docs API of a real Engine: what `Doc::del` reports and what the document holds
+    super::apifam::run_life_family(ctx, report, "C02");
     let pre = bystanders();
     let mut ordinal = 0u64;
     for fam in families(ctx.tier) {
@@ -477,6 +479,9 @@ fn one(report: &mut Report, pre: &[Spec], steps: &[Step], ordinal: u64) {
 }
 
 fn replay(case: &Value) -> anyhow::Result<(bool, String)> {
+    if let Some(r) = super::apifam::replay_life(case, "C02")? {
+        return Ok(r);
+    }
     if case["family"] == "neighbour_authors" {
         let steps: Vec<Step> = serde_json::from_value(case["steps"].clone())?;
         return match catch(|| run_neighbours(&steps)) {
